@@ -26,11 +26,12 @@
 EXTENDS Naturals, FiniteSets, Sequences, TLC, Json
 
 CONSTANTS MaxLen, MaxRestarts, MaxFaults, Pools, Pars, CrashKinds,
+          PreKinds,        \* subset of {"none", "first", "all"}: which blobs of the history the source holds beforehand
           BurstSizes, BurstHolds, BurstForms      \* burst family only
 
-VARIABLES h, cuts, dstp, srcp, par, pool, crash,
+VARIABLES h, cuts, dstp, srcp, par, pool, crash, pre,
           hold, stall     \* per incarnation: outcome of every destination write until the heal mark ("" = ok) / first write stalled
-gvars == <<h, cuts, dstp, srcp, par, pool, crash, hold, stall>>
+gvars == <<h, cuts, dstp, srcp, par, pool, crash, pre, hold, stall>>
 
 DstPats == {<<>>, <<"error">>, <<"wrongsize">>, <<"after">>, <<"ok", "error">>, <<"error", "error">>,
             <<"error", "wrongsize">>, <<"wrongsize", "ok", "after">>, <<"error", "error", "error">>}
@@ -56,6 +57,7 @@ Init == /\ h \in Hists
              /\ crash \in [1..r -> CrashKinds]
              /\ hold = [p \in 1..(r + 1) |-> ""] /\ stall = [p \in 1..(r + 1) |-> FALSE]
         /\ pool \in Pools
+        /\ pre \in PreKinds
 
 \* ---- burst family
 Shapes(n, o, ck) ==
@@ -71,6 +73,7 @@ BInit == \E n \in BurstSizes :
              /\ dstp = [p \in 1..Len(s.hd) |-> <<>>] /\ srcp = [p \in 1..Len(s.hd) |-> <<>>]
              /\ \E pp \in Pars : par = [p \in 1..Len(s.hd) |-> pp]
              /\ pool \in Pools
+             /\ pre = "none"
 
 Next == UNCHANGED gvars
 Spec == Init /\ [][Next]_gvars
@@ -80,5 +83,6 @@ From(p) == IF p = 1 THEN 1 ELSE cuts[p - 1] + 1
 To(p) == IF p = NPh THEN Len(h) ELSE cuts[p]
 Phase(p) == [ups |-> SubSeq(h, From(p), To(p)), par |-> par[p], dst |-> dstp[p], src |-> srcp[p],
              crash |-> IF p = NPh THEN "none" ELSE crash[p], freeze |-> 0, hold |-> hold[p], stall |-> stall[p]]
-Emit == PrintT(<<"SCN", ToJson([n |-> MaxOf(h, Len(h)), pool |-> pool, phases |-> [p \in 1..NPh |-> Phase(p)]])>>)
+PreSet == IF pre = "first" THEN <<h[1]>> ELSE IF pre = "all" THEN [i \in 1..MaxOf(h, Len(h)) |-> i] ELSE <<>>
+Emit == PrintT(<<"SCN", ToJson([n |-> MaxOf(h, Len(h)), pool |-> pool, pre |-> PreSet, phases |-> [p \in 1..NPh |-> Phase(p)]])>>)
 =============================================================================
